@@ -108,6 +108,16 @@ def cases(tier, seed):
                                 "nseeds": 1 if tier == "quick" else 3,
                                 "fixed": {"m": m_, "n": n_, "R": R_, "P": P_, "r": min(m_, n_), "kind": "simple", "n_iter": it_, "n_passes": 2 + it_, "colstruct": cs_}})
     for routine in ("rand_qsvd", "pass_eff_qsvd"):
+        for j, st_ in enumerate(("diag", "upper_tri", "lower_tri", "unit_identity", "real_only", "herm_indef", "unitary", "int", "sparse", "axis2")):
+            for t_, (m_, n_, R_, P_) in enumerate(((6, 6, 3, 1), (6, 6, 4, 4), (8, 5, 2, 0), (5, 8, 3, 6), (7, 7, 7, 0))):
+                if tier == "quick" and (j + t_) % 2:
+                    continue
+                for it_ in (0, 2) if tier == "quick" else (0, 1, 2, 3):
+                    out.append({"kind": "run", "cls": "structured", "routine": routine, "idx": 5 * 10 ** 6 + 1000 * j + 100 * t_ + it_, "seed": seed, "maxd": maxd,
+                                "nseeds": 1 if tier == "quick" else 2,
+                                "fixed": {"m": m_, "n": n_, "R": R_, "P": P_, "r": min(m_, n_), "kind": "simple", "n_iter": it_, "n_passes": 2 + it_,      # the property covers two or more passes
+                                          "colstruct": "struct:" + st_}})
+    for routine in ("rand_qsvd", "pass_eff_qsvd"):
         for j, sc_ in enumerate((2.0 ** -60, 2.0 ** -200, 2.0 ** 100, 2.0 ** -30)):
             for (m_, n_, R_, P_, r_, kind_) in ((9, 7, 3, 0, 3, "simple"), (6, 8, 2, 0, 2, "simple"), (7, 7, 3, 2, 7, "geometric")):
                 out.append({"kind": "run", "cls": "scaled", "routine": routine, "idx": 3 * 10 ** 6 + 10 * j + m_, "seed": seed, "maxd": maxd, "nseeds": 1,
@@ -201,6 +211,21 @@ def run_case(spec, ctx, R):
             Aq[:, 2] = Aq[:, 0] + Aq[:, 1]
         elif cs_ == "zero_column" and n >= 2:
             Aq[:, 1] = np.quaternion(0, 0, 0, 0)
+        elif cs_.startswith("struct:"):
+            # exactly structured inputs (diagonal, triangular, partial identity, real-only, Hermitian, unitary, integer, sparse pattern) under every
+            # option regime: what the sketch sees is then far from generic (exact zeros, orthogonal columns, repeated values are judged by the tags)
+            sc2 = cs_.split(":", 1)[1]
+            if sc2 in ("int", "sparse"):
+                Aq = gen.entries(rng, sc2, m, n)
+                if sc2 == "int":
+                    Aq = Aq + refq.diagq(np.full(min(m, n), 7.0), m, n)
+            else:
+                Aq = gen.structured(rng, sc2, m, m if gen.is_square_class(sc2) else n)
+                if Aq.shape != (m, n):
+                    full = refq.zeros(m, n)
+                    k_ = min(m, n, Aq.shape[0])
+                    full[:k_, :k_] = Aq[:k_, :k_]
+                    Aq = full
         A = Aq
         svals = embed.svals(A)
         svals = np.where(svals > 1e-12 * svals[0], svals, 0.0)
